@@ -440,6 +440,12 @@ func checkGenEsc(c genEscCase) error {
 	if c.Dangling {
 		classes = append(classes, "genesc:trailing-backslash")
 	}
+	if p := c.Owner[0][0]; p.Kind == geLit && keywordLike(string(p.Oct)) {
+		classes = append(classes, "genesc:owner-begins-with-keyword-like-word")
+		if u := strings.ToUpper(string(p.Oct)); strings.HasPrefix(u, "TYPE") || strings.HasPrefix(u, "CLASS") {
+			classes = append(classes, "genesc:owner-begins-with-TYPE-or-CLASS")
+		}
+	}
 	all := append(append(append([][]gePart{}, c.Owner...), c.Target...), c.Strs...)
 	nontrivial := len(st.escapes) > 0 || c.Dangling
 	for _, l := range all {
@@ -575,6 +581,20 @@ func genGenEsc(t *rapid.T) genEscCase {
 		return
 	}
 	c.Owner, c.OwnerAbs = name(true)
+	// the template begins with a word that looks like a type, a class, TYPEnnn / CLASSnnn (or merely
+	// begins like them), a TTL or a directive name: in a template it is part of the owner name
+	keyworded := func(labels [][]gePart) {
+		w := templateWords[n(len(templateWords), "kww")]
+		p := gePart{Kind: geLit, Oct: []byte(w), Spell: make([]int, len(w))}
+		if labels[0][0].Kind == geLit {
+			labels[0][0] = p
+		} else {
+			labels[0] = append([]gePart{p}, labels[0]...)
+		}
+	}
+	if n(4, "kwowner") == 0 {
+		keyworded(c.Owner)
+	}
 	c.Type = []uint16{zm.TTXT, zm.TTXT, zm.TCNAME, zm.TNS, zm.TPTR, zm.TMX}[n(6, "type")]
 	switch c.Type {
 	case zm.TTXT:
@@ -590,6 +610,9 @@ func genGenEsc(t *rapid.T) genEscCase {
 		fallthrough
 	default:
 		c.Target, c.TargetAbs = name(false)
+		if n(8, "kwtarget") == 0 {
+			keyworded(c.Target)
+		}
 	}
 	if c.Type != zm.TTXT && n(6, "dangling") == 0 {
 		// excluded while the finding is listed and reproduces
